@@ -1134,7 +1134,7 @@ func compileStringLitEx(ctx *blockCtx, cb *gogen.CodeBuilder, lit *ast.BasicLit)
 			}
 			compileExpr(ctx, v, flags)
 			t := cb.Get(-1).Type
-			if t.Underlying() != types.Typ[types.String] {
+			if b, ok := t.Underlying().(*types.Basic); !ok || b.Info()&types.IsString == 0 { // (an untyped string constant is a string too)
 				if _, err := cb.Member("string", gogen.MemberFlagAutoProperty); err != nil {
 					if _, e2 := cb.Member("error", gogen.MemberFlagAutoProperty); e2 != nil {
 						if e, ok := err.(*gogen.CodeError); ok {
